@@ -365,11 +365,16 @@ func (c *Ctx) genC05() {
 		if c.chance(0.05) {
 			a.II = nil
 		}
-		switch c.rng.Intn(4) {
+		switch c.rng.Intn(5) {
 		case 0:
 			a.ACSURL = fmt.Sprintf("https://sp.example.com/acs%d", c.rng.Intn(5))
 		case 1:
 			a.ACSURL = "https://evil.example.org/acs"
+		case 2:
+			// near-miss of a registered location: extension, proper prefix, case, query, path tricks
+			b := fmt.Sprintf("https://sp.example.com/acs%d", c.rng.Intn(4))
+			a.ACSURL = []string{b + "x", b + "/", b + "?tenant=1", b[:len(b)-1], strings.ToUpper(b), b + "/../../redirect", b + ".evil.example.org/collect", " " + b}[c.rng.Intn(8)]
+			c.count("c05-acsurl", "near-miss")
 		}
 		switch c.rng.Intn(5) {
 		case 0:
